@@ -22,7 +22,7 @@ Lemma veq_f_S : forall n a b,
   veq_f (S n) a b =
   match a, b with
   | VLeaf x, VLeaf y => leaf_eqb x y
-  | VNode s k1, VNode t k2 => tag_eqb s t && forall2b (veq_f n) k1 k2
+  | VNode s k1, VNode t k2 => node_veq (veq_f n) s k1 t k2
   | VUnion l1, VUnion l2 => forall2b (veq_f n) l1 l2 || set_eq (E_f n) l1 l2
   | _, _ => false
   end.
@@ -36,9 +36,9 @@ Proof.
   destruct x as [l|t k|vs], y as [l'|t' k'|vs']; try discriminate; try reflexivity.
   - destruct l, l'; simpl in H; try discriminate; try reflexivity.
     simpl. apply N.eqb_eq in H. now subst.
-  - apply andb_true_iff in H. destruct H as [Ht Hk].
+  - destruct t, t'; try reflexivity; try (unfold node_veq in H; simpl in H; discriminate H).
+    unfold node_veq in H. apply andb_true_iff in H. destruct H as [Ht Hk].
     assert (L := forall2b_length _ _ _ Hk).
-    destruct t, t'; simpl in Ht; try discriminate; try reflexivity.
     destruct k as [|a [|b r]], k' as [|a' [|b' r']]; simpl in L; try discriminate; try reflexivity.
     simpl in Hk. apply andb_true_iff in Hk. simpl. apply IH. tauto.
 Qed.
@@ -80,13 +80,48 @@ Proof.
   - left. eapply dedup_subset. exact Hx.
 Qed.
 
+Lemma keyed_incl_ext : forall {K} (f g : val -> val -> bool) (keq : K -> K -> bool) l1 l2,
+  (forall p q, In p l1 -> In q l2 -> f (snd p) (snd q) = g (snd p) (snd q)) ->
+  keyed_incl f keq l1 l2 = keyed_incl g keq l1 l2.
+Proof.
+  intros K f g keq l1 l2 H. unfold keyed_incl.
+  apply forallb_ext_in'. intros p Hp. apply existsb_ext_in'. intros q Hq. now rewrite (H p q Hp Hq).
+Qed.
+
+Lemma in_combine_snd : forall {K} (ks : list K) (ts : list val) p, In p (combine ks ts) -> In (snd p) ts.
+Proof. intros K ks ts [k v] H. simpl. eapply in_combine_r. exact H. Qed.
+
+Lemma in_skipn : forall {A} n (l : list A) x, In x (skipn n l) -> In x l.
+Proof. intros A n l x H. rewrite <- (firstn_skipn n l). apply in_or_app. now right. Qed.
+
+Lemma in_firstn : forall {A} n (l : list A) x, In x (firstn n l) -> In x l.
+Proof. intros A n l x H. rewrite <- (firstn_skipn n l). apply in_or_app. now left. Qed.
+
+Lemma node_veq_ext : forall (f g : val -> val -> bool) s k1 t k2,
+  (forall x y, In x k1 -> In y k2 -> f x y = g x y) ->
+  node_veq f s k1 t k2 = node_veq g s k1 t k2.
+Proof.
+  intros f g s k1 t k2 H. unfold node_veq.
+  destruct s, t; try (f_equal; apply forall2b_ext; exact H).
+  - (* TypedDict *)
+    destruct k1 as [|va1 ts1], k2 as [|va2 ts2]; try reflexivity.
+    f_equal. rewrite (H va1 va2) by (left; reflexivity). f_equal; [f_equal|].
+    + apply keyed_incl_ext. intros p q Hp Hq. apply H; right; eapply in_combine_snd; eauto.
+    + apply forall2b_ext. intros x y Hx Hy. apply H; right; eapply in_skipn; eauto.
+  - (* Callable *)
+    f_equal; [f_equal; [f_equal|]|].
+    + apply forall2b_ext. intros x y Hx Hy. apply H; eapply in_firstn; eauto.
+    + apply keyed_incl_ext. intros p q Hp Hq. apply H; eapply in_skipn; eapply in_combine_snd; eauto.
+    + apply forall2b_ext. intros x y Hx Hy. apply H; eapply in_skipn; eauto.
+Qed.
+
 Lemma veq_f_stable : forall n a b, depth a <= n -> depth b <= n -> veq_f (S n) a b = veq_f n a b.
 Proof.
   induction n as [|n IH]; intros a b Da Db.
   - pose proof (depth_pos a). lia.
   - rewrite (veq_f_S (S n)), (veq_f_S n).
     destruct a as [l|t k|vs], b as [l'|t' k'|vs']; try reflexivity.
-    + simpl in Da, Db. f_equal. apply forall2b_ext. intros x y Hx Hy. apply IH.
+    + simpl in Da, Db. apply node_veq_ext. intros x y Hx Hy. apply IH.
       * pose proof (depth_kids _ _ Hx). lia.
       * pose proof (depth_kids _ _ Hy). lia.
     + simpl in Da, Db.
@@ -156,4 +191,78 @@ Proof.
   - apply members_nonunion. intros v [<-|[<-|[]]]; auto.
   - intros x Hx. apply in_mem_keys. apply M2. now rewrite M1 in Hx. apply Hr. now rewrite M1 in Hx.
   - intros x Hx. apply in_mem_keys. rewrite M1. now apply M2. apply Hr. now apply M2.
+Qed.
+
+(* associativity *)
+Lemma members2 : forall x y, members [x; y] = flatten x ++ flatten y.
+Proof. intros. unfold members. simpl. now rewrite app_nil_r. Qed.
+
+Lemma unite_assoc : forall n a b c,
+  flat a = true -> flat b = true -> flat c = true ->
+  fits n (VAnyUnreachable :: flatten a ++ flatten b ++ flatten c) = true ->
+  equiv_onb (E_f n) (VAnyUnreachable :: flatten a ++ flatten b ++ flatten c) = true ->
+  veq_f (S n) (unite_f n [unite_f n [a; b]; c]) (unite_f n [a; unite_f n [b; c]]) = true.
+Proof.
+  intros n a b c Fa Fb Fc Hfit Heq.
+  destruct (equiv_onb_spec _ _ Heq) as [Hr [Hs Ht]].
+  set (Sup := VAnyUnreachable :: flatten a ++ flatten b ++ flatten c) in *.
+  assert (Ia : forall x, In x (flatten a) -> In x Sup) by (intros x Hx; right; apply in_or_app; auto).
+  assert (Ib : forall x, In x (flatten b) -> In x Sup).
+  { intros x Hx. right. apply in_or_app. right. apply in_or_app. auto. }
+  assert (Ic : forall x, In x (flatten c) -> In x Sup).
+  { intros x Hx. right. apply in_or_app. right. apply in_or_app. auto. }
+  assert (Na := flat_spec a Fa). assert (Nb := flat_spec b Fb). assert (Nc := flat_spec c Fc).
+  assert (Hunr := E_f_unreachable n).
+  (* the two inner unions *)
+  assert (Sab : forall y, In y (members [a; b]) -> In y Sup).
+  { intros y Hy. rewrite members2 in Hy. apply in_app_or in Hy. destruct Hy; auto. }
+  assert (Sbc : forall y, In y (members [b; c]) -> In y Sup).
+  { intros y Hy. rewrite members2 in Hy. apply in_app_or in Hy. destruct Hy; auto. }
+  assert (Nab : all_nonunion (members [a; b])).
+  { intros y Hy. rewrite members2 in Hy. apply in_app_or in Hy. destruct Hy; auto. }
+  assert (Nbc : all_nonunion (members [b; c])).
+  { intros y Hy. rewrite members2 in Hy. apply in_app_or in Hy. destruct Hy; auto. }
+  set (u := unite_f n [a; b]). set (u' := unite_f n [b; c]).
+  assert (Su : forall x, In x (flatten u) -> In x Sup).
+  { intros x Hx. destruct (flatten_unite_in_S (E_f n) Sup [a; b] x Sab Nab Hx) as [->|H]; [left; reflexivity|exact H]. }
+  assert (Su' : forall x, In x (flatten u') -> In x Sup).
+  { intros x Hx. destruct (flatten_unite_in_S (E_f n) Sup [b; c] x Sbc Nbc Hx) as [->|H]; [left; reflexivity|exact H]. }
+  assert (Nu : all_nonunion (flatten u)) by (apply flatten_unite_nonunion; exact Nab).
+  assert (Nu' : all_nonunion (flatten u')) by (apply flatten_unite_nonunion; exact Nbc).
+  assert (Cu : forall x, In x (members [a; b]) -> is_unreachable x = false -> mem_keys (E_f n) (flatten u) x = true).
+  { intros x Hx Hu. apply (flatten_unite_cover (E_f n) Sup Hunr Hr); auto. }
+  assert (Cu' : forall x, In x (members [b; c]) -> is_unreachable x = false -> mem_keys (E_f n) (flatten u') x = true).
+  { intros x Hx Hu. apply (flatten_unite_cover (E_f n) Sup Hunr Hr); auto. }
+  apply (result_rel_veq n Sup); [apply fits_spec; auto|].
+  unfold unite_f at 1 2. apply unite_with_rel_r; auto; fold u; fold u'; rewrite ?members2.
+  - intros x Hx. apply in_app_or in Hx. destruct Hx; auto.
+  - intros x Hx. apply in_app_or in Hx. destruct Hx; auto.
+  - intros x Hx. apply in_app_or in Hx. destruct Hx; auto.
+  - intros x Hx. apply in_app_or in Hx. destruct Hx; auto.
+  - (* left covers right *)
+    intros x Hx Hu. rewrite mem_keys_app. apply in_app_or in Hx. destruct Hx as [Hx|Hx].
+    + assert (Hm := flatten_unite_sub (E_f n) [a; b] x Nab Hx Hu). rewrite members2 in Hm.
+      apply in_app_or in Hm. destruct Hm as [Hm|Hm].
+      * rewrite (in_mem_keys _ _ _ Hm (Hr x (Ia x Hm))). reflexivity.
+      * rewrite (Cu' x) by (rewrite ?members2; auto; apply in_or_app; auto). apply orb_true_r.
+    + rewrite (Cu' x) by (rewrite ?members2; auto; apply in_or_app; auto). apply orb_true_r.
+  - (* right covers left *)
+    intros x Hx Hu. rewrite mem_keys_app. apply in_app_or in Hx. destruct Hx as [Hx|Hx].
+    + rewrite (Cu x) by (rewrite ?members2; auto; apply in_or_app; auto). reflexivity.
+    + assert (Hm := flatten_unite_sub (E_f n) [b; c] x Nbc Hx Hu). rewrite members2 in Hm.
+      apply in_app_or in Hm. destruct Hm as [Hm|Hm].
+      * rewrite (Cu x) by (rewrite ?members2; auto; apply in_or_app; auto). reflexivity.
+      * rewrite (in_mem_keys _ _ _ Hm (Hr x (Ic x Hm))). apply orb_true_r.
+  - (* the all-unreachable case: both sides are empty together *)
+    intros A1 A2.
+    assert (E1 : flatten u = [] <-> members [a; b] = []).
+    { apply (flatten_unite_nil (E_f n) Sup Hunr Hr); auto. intros x Hx. apply A1. apply in_or_app; auto. }
+    assert (E2 : flatten u' = [] <-> members [b; c] = []).
+    { apply (flatten_unite_nil (E_f n) Sup Hunr Hr); auto. intros x Hx. apply A2. apply in_or_app; auto. }
+    rewrite members2 in E1, E2.
+    split; intros H; apply app_eq_nil in H; destruct H as [H1 H2].
+    + apply E1 in H1. apply app_eq_nil in H1. destruct H1 as [Ha Hb]. rewrite Ha. simpl.
+      apply E2. rewrite Hb, H2. reflexivity.
+    + apply E2 in H2. apply app_eq_nil in H2. destruct H2 as [Hb Hc]. rewrite Hc, app_nil_r.
+      apply E1. rewrite H1, Hb. reflexivity.
 Qed.
